@@ -158,6 +158,8 @@ Spec == Init /\ [][Next]_vars
 TypeOK == step \in ModelSteps \cup {"-"} /\ out[1] \in BOOLEAN
 \* the meaning is total on the universe: every goal is true or false
 ValTotal == step = "-" => Truth(goal) \in {"T", "F"}
+\* the arbitrary-precision evaluator (the fallback of SeqTruth beyond 31 bits) gives the same verdict as the native one
+BigAgrees == step = "-" => BTruth(goal) = Truth(goal)
 \* THE property at design level
 Sound == out[1] => Truth(out[2]) = "T"
 \* the evaluator of type T agrees with the meaning on terms of type T (whenever it returns at all)
